@@ -366,6 +366,38 @@ def dgroup_focus(rng, size="small", vehicle_wait=False):
     return m
 
 
+def member_unplan_rejected(rng):
+    """a stop group whose member a picks up what a later stop d drops off: once a, its sibling b and d are on the route,
+    un-planning the member a on its own is rejected by the capacity check (the level at d would go below zero)"""
+    T = T0
+    extra = rng.randint(0, 2)
+    n = 3 + extra
+    N = n + 2
+    stops = []
+    for i in range(n):
+        q = [-1] if i == 0 else [1] if i == 2 else [0]
+        stops.append({"quantity": q, "duration": rng.choice([0, 60]), "windows": [], "max_wait": None, "penalty": rng.choice([None, 500]),
+                      "attrs": [], "target": None, "early_pen": 0, "late_pen": 0})
+    units = [{"stops": [i], "arcs": [], "orders": [[i]]} for i in range(n)]
+    ve = {"capacity": [rng.randint(1, 3)], "start_level": [0], "start_time": T, "end_time": None, "max_duration": None, "max_stops": None,
+          "max_distance": None, "max_wait": None, "attrs": [], "activation": None, "has_start": True, "has_end": True, "initial": [],
+          "min_stops": 0, "min_stops_pen": 0}
+    dur = [[0 if i == j else rng.randint(10, 300) for j in range(N)] for i in range(N)]
+    dist = [[0 if i == j else rng.randint(10, 3000) for j in range(N)] for i in range(N)]
+    opts = {k: False for k in ["dis_capacity", "dis_distance", "dis_max_duration", "dis_end_time", "dis_windows", "dis_max_stops",
+                               "dis_max_wait_stop", "dis_max_wait_vehicle", "dis_attributes", "dis_start_time", "dis_durations", "dis_dgroups"]}
+    opts.update({"f_activation": 0, "f_travel": 1, "f_vehicles_duration": 1, "f_unplanned": 1, "f_early": 0, "f_late": 0, "f_min_stops": 0,
+                 "f_stop_balance": 0})
+    m = {"dgroups": [], "groups": [[0, 1]], "user": [], "stops": stops, "vehicles": [ve], "units": units, "arcs": [], "dur": dur, "dist": dist,
+         "nres": 1, "res_mode": "single", "opts": opts, "features": {"groups": True, "capacity": True}}
+    ops = []
+    for _ in range(rng.randint(4, 9)):
+        ops.append(gen_ops(rng, m, 1, "plan_only")[0])
+    ops.append("op munplanr %d" % rng.randrange(1 << 20))
+    ops += [gen_ops(rng, m, 1, "plan_only")[0], "op snapall"]
+    return m, ops
+
+
 def unit_of(units, x):
     for k, u in enumerate(units):
         if x in u["stops"]:
